@@ -20,14 +20,14 @@ Proof. rewrite <- app_assoc. reflexivity. Qed.
 (* ------------------------------------------------------------------------------------------ *)
 (* least connections *)
 Section LC.
-  Variable body : nat -> list backend * Z * (Z * option nat * unit) -> (option nat * (list backend * Z)) + (list backend * Z * (Z * option nat * unit)).
+  Variable body : nat -> list backend * Z * (option nat * Z * unit) -> (option nat * (list backend * Z)) + (list backend * Z * (option nat * Z * unit)).
   Hypothesis Hbody : forall i pool ctr minc sel,
-    body i (pool, ctr, (minc, sel, tt))
-    = inr (pool, ctr, (if bflag (nth i pool dB) && (bactive (nth i pool dB) <? minc) then (bactive (nth i pool dB), Some i, tt) else (minc, sel, tt))).
+    body i (pool, ctr, (sel, minc, tt))
+    = inr (pool, ctr, (if bflag (nth i pool dB) && (bactive (nth i pool dB) <? minc) then (Some i, bactive (nth i pool dB), tt) else (sel, minc, tt))).
 
   Lemma lc_loop l : forall pre minc sel ctr,
     exists minc' sel',
-      loop_idx (seq (length pre) (length l)) (pre ++ l, ctr, (minc, sel, tt)) body = inr (pre ++ l, ctr, (minc', sel', tt))
+      loop_idx (seq (length pre) (length l)) (pre ++ l, ctr, (sel, minc, tt)) body = inr (pre ++ l, ctr, (sel', minc', tt))
       /\ at_idx (pre ++ l) sel' = lc_scan (at_idx (pre ++ l) sel) minc l.
   Proof.
     induction l as [|a t IH]; intros pre minc sel ctr; cbn [length seq loop_idx lc_scan].
@@ -50,8 +50,8 @@ Proof.
   assert (Hz : (zlen pool =? 0) = false) by (subst pool; reflexivity). rewrite Hz.
   match goal with |- context [loop_idx _ _ ?b] => set (body := b) end.
   assert (Hbody : forall i pool ctr minc sel,
-    body i (pool, ctr, (minc, sel, tt))
-    = inr (pool, ctr, (if bflag (nth i pool dB) && (bactive (nth i pool dB) <? minc) then (bactive (nth i pool dB), Some i, tt) else (minc, sel, tt)))).
+    body i (pool, ctr, (sel, minc, tt))
+    = inr (pool, ctr, (if bflag (nth i pool dB) && (bactive (nth i pool dB) <? minc) then (Some i, bactive (nth i pool dB), tt) else (sel, minc, tt)))).
   { intros i p c m s. unfold body. destruct (bflag (nth i p dB)); cbn [negb andb]; [|reflexivity]. destruct (bactive (nth i p dB) <? m); reflexivity. }
   destruct (lc_loop body Hbody pool [] 2147483647 None ctr) as (m' & s' & E & Hs). cbn [app length] in E, Hs.
   rewrite E. cbn [fst snd]. split; [exact Hs|reflexivity].
@@ -116,22 +116,22 @@ Lemma upd_nth_app_here {A} (f : A -> A) (pre : list A) a t : upd_nth (length pre
 Proof. induction pre as [|x p IH]; cbn [length app upd_nth]; [reflexivity|]. rewrite IH. reflexivity. Qed.
 
 Section WRR.
-  Variable body : nat -> list backend * Z * (option nat * Z * unit) -> (option nat * (list backend * Z)) + (list backend * Z * (option nat * Z * unit)).
+  Variable body : nat -> list backend * Z * (Z * option nat * unit) -> (option nat * (list backend * Z)) + (list backend * Z * (Z * option nat * unit)).
   Hypothesis Hbody : forall i pool ctr best total,
-    body i (pool, ctr, (best, total, tt))
+    body i (pool, ctr, (total, best, tt))
     = let b := nth i pool dB in
       if bflag b then
         let pool' := upd_nth i (set_cw (bcw b + bweight b)) pool in
         inr (pool', ctr,
-             ((if (match best with None => true | Some _ => false end) || (bcw (pget best pool') <? bcw (nth i pool' dB)) then Some i else best),
-              total + bweight b, tt))
-      else inr (pool, ctr, (best, total, tt)).
+             (total + bweight b,
+              (if (match best with None => true | Some _ => false end) || (bcw (pget best pool') <? bcw (nth i pool' dB)) then Some i else best), tt))
+      else inr (pool, ctr, (total, best, tt)).
 
   Lemma wrr_loop l : forall P best total ctr,
     (forall j, best = Some j -> (j < length P)%nat) ->
     exists best',
-      loop_idx (seq (length P) (length l)) (P ++ l, ctr, (best, total, tt)) body
-      = inr (P ++ map bump l, ctr, (best', total + wrr_total l, tt))
+      loop_idx (seq (length P) (length l)) (P ++ l, ctr, (total, best, tt)) body
+      = inr (P ++ map bump l, ctr, (total + wrr_total l, best', tt))
       /\ at_idx (P ++ map bump l) best' = wrr_best (at_idx P best) (map bump l)
       /\ (forall j, best' = Some j -> (j < length P + length l)%nat).
   Proof.
@@ -199,14 +199,14 @@ Proof.
   assert (Hz : (zlen pool =? 0) = false) by (subst pool; reflexivity). rewrite Hz. cbn zeta.
   match goal with |- context [loop_idx _ _ ?b] => set (body := b) end.
   assert (Hbody : forall i pool ctr best total,
-    body i (pool, ctr, (best, total, tt))
+    body i (pool, ctr, (total, best, tt))
     = let b := nth i pool dB in
       if bflag b then
         let pool' := upd_nth i (set_cw (bcw b + bweight b)) pool in
         inr (pool', ctr,
-             ((if (match best with None => true | Some _ => false end) || (bcw (pget best pool') <? bcw (nth i pool' dB)) then Some i else best),
-              total + bweight b, tt))
-      else inr (pool, ctr, (best, total, tt))).
+             (total + bweight b,
+              (if (match best with None => true | Some _ => false end) || (bcw (pget best pool') <? bcw (nth i pool' dB)) then Some i else best), tt))
+      else inr (pool, ctr, (total, best, tt))).
   { intros i p c best total. unfold body. cbn zeta. destruct (bflag (nth i p dB)); [|reflexivity].
     destruct ((match best with None => true | Some _ => false end) || _); reflexivity. }
   destruct (wrr_loop body Hbody pool [] None 0 ctr) as (b' & E & Hs & Hlt); [intros j Hj; discriminate|].
